@@ -349,7 +349,8 @@ def run_case(spec, j):
           before = _probe(est, Q)
           e2 = pickle.loads(pickle.dumps(est))
           after = _probe(e2, Q)
-          changed = fp_diff(fp_map(vars(est)), fp_map(vars(e2)))
+          changed = fp_diff(fp_map(api._fitted_state(est)),
+                           fp_map(api._fitted_state(e2)))
           j.check('C17.pickle', np.array_equal(before, after, equal_nan=True)
                   and not changed,
                   dict(det, ops=ops[-4:], changed=changed))
